@@ -83,8 +83,11 @@ def chain_programs(ctx):
     rnd = random.Random(ctx.seed + 3)
     corpus5, exh, rand = progs[:5], progs[5:5 + n_exh], progs[5 + n_exh:]
     if ctx.tier == "quick":
-        exh = rnd.sample(exh, min(70, len(exh)))
-        rand = rnd.sample(rand, min(90, len(rand)))
+        exh = rnd.sample(exh, min(60, len(exh)))
+        rand = rnd.sample(rand, min(80, len(rand)))
+    else:
+        exh = rnd.sample(exh, min(600, len(exh)))
+        rand = rnd.sample(rand, min(900, len(rand)))
     out, seen = [], set()
     for i, st in enumerate(CORPUS):
         out.append({"kind": "chain", "steps": st, "corpus": True, "name": f"corpus{i}"})
@@ -301,6 +304,74 @@ def nops_for_step(before, after, other=None, other_wrapped=None, is_setop=False)
 
 
 # ------------------------------------------------------------------------------------------------------------
+
+def mechanisms(raw_tree, exp):
+    """shape predicates on the tree sqlframe built (not on the optimizer's output): which of the known
+    name-resolution hazards does it contain?  Used only to NAME a deviation that has already been observed."""
+    out = []
+    try:
+        main = raw_tree.copy()
+        main.set("with", None)
+        sels = [(c.alias, c.this) for c in raw_tree.ctes] + [(None, main)]
+        by_name = {a: s_ for a, s_ in sels if a}
+        order_keys = set()     # names used as ORDER BY keys in an earlier SELECT without LIMIT
+
+        def is_plain(item, n):
+            e = item.this if isinstance(item, exp.Alias) else item
+            while isinstance(e, exp.Paren):
+                e = e.this
+            return isinstance(e, exp.Column) and e.name == n
+
+        for alias, sel in sels:
+            if not isinstance(sel, exp.Select):
+                continue
+            frm = sel.args.get("from")
+            src = by_name.get(frm.this.name) if frm is not None and isinstance(frm.this, exp.Table) else None
+            items = list(sel.expressions)
+            defs = {i.alias_or_name: i for i in items}
+            where = sel.args.get("where")
+            if where is not None and isinstance(src, exp.Select) and src.args.get("limit") is not None:
+                out.append("filter-pushed-below-limit")
+            if where is not None:
+                for c in where.find_all(exp.Column):
+                    if not c.table and c.name in defs and not is_plain(defs[c.name], c.name):
+                        out.append("where-captured-by-select-alias")
+                        break
+            for i in items:
+                e = i.this if isinstance(i, exp.Alias) else i
+                hit = False
+                for c in e.find_all(exp.Column):
+                    if not c.table and c.name in defs and defs[c.name] is not i and not is_plain(defs[c.name], c.name):
+                        hit = True
+                if hit:
+                    out.append("select-item-captured-by-sibling-alias")
+                    break
+            for n in order_keys:
+                if n in defs and not is_plain(defs[n], n):
+                    out.append("order-key-captured-by-later-alias")
+                    break
+            order = sel.args.get("order")
+            if order is not None and sel.args.get("limit") is None:
+                for o in order.expressions:
+                    k = o.this
+                    if isinstance(k, exp.Column):
+                        order_keys.add(k.name)
+            if sel.args.get("limit") is not None or sel.args.get("distinct") is not None:
+                order_keys = set()
+    except Exception:   # noqa: BLE001  naming only
+        pass
+    seen = []
+    for m in out:
+        if m not in seen:
+            seen.append(m)
+    return seen
+
+
+MECH_ORDER = ["filter-pushed-below-limit", "where-captured-by-select-alias", "select-item-captured-by-sibling-alias",
+              "order-key-captured-by-later-alias"]
+TAG_SIG = {"semi": "semi-anti-join-kind-lost", "anti": "semi-anti-join-kind-lost",
+           "diamond": "shared-lineage", "selfjoin": "shared-lineage"}
+
 
 def kinds(steps):
     proj = {"select", "withColumn", "rename", "drop", "toDF", "fillna", "replace"}
@@ -812,60 +883,83 @@ def run(ctx: core.Ctx):
 
     n_dev = {"optimize": 0, "unquoted": 0, "raises": 0, "other": 0}
     all_sigs = {}
+
+    def emit(sig, what, base):
+        ctx.deviation(sig, what, base)
+        all_sigs[sig] = all_sigs.get(sig, 0) + 1
+
+    def status_of(p, table, cfg):
+        for e in raw_devs:
+            if e["prog"] is p and e["table"] == table and e["cfg"] == cfg:
+                return e["status"]
+        return "ok"
+
     for d in raw_devs:
         p, cfg, status = d["prog"], d["cfg"], d["status"]
         o, q, pr = cfg
         rows = d.get("rows")
-        same_opt_quoted_ok = not any(e["prog"] is p and e["table"] == d["table"] and e["cfg"] == (o, True, pr) for e in raw_devs)
         base = {"program": p["desc"], "kind": p["kind"], "table": d["table"], "rows": rows,
                 "config": {"optimize": o, "quote_identifiers": q, "pretty": pr, "dialect": "duckdb"},
                 "status": status, "detail": d["detail"], "sql_text": d["text"],
                 "collect": {"columns": d["ref"][0], "rows": d["ref"][1]},
                 "text_result": ({"columns": d["got"][0], "rows": d["got"][1]} if d["got"] else None),
                 "steps_json": p.get("steps"), "name": p["name"], "mode": p["mode"]}
-        if not q and same_opt_quoted_ok:
-            # only the unquoted rendering fails
+        if not q and status_of(p, d["table"], (o, True, pr)) != status:
+            # the quoted rendering of the same statement behaves differently: the failure is the unquoted printing
             if p.get("all_plain") is False:
                 n_dev["unquoted"] += 1
                 base["non_plain_identifiers"] = p.get("nonplain")
-                sig, what = ("C03/unquoted-nonplain-identifier",
-                             "quote_identifiers=False prints an identifier that DuckDB does not read back bare "
-                             "(reserved word / not a word); the text fails or means something else")
-                ctx.deviation(sig, what, base)
-                all_sigs[sig] = all_sigs.get(sig, 0) + 1
+                emit("C03/unquoted-nonplain-identifier",
+                     "quote_identifiers=False prints an identifier that DuckDB does not read back bare "
+                     "(reserved word / not a word); the text fails or means something else", base)
             else:
                 ctx.broken("T3:unquoted-text-fails-on-plain-identifiers",
                            f"{p['desc']} cfg={cfg}: {status} {d['detail']}", data=base)
             continue
+        if status == "names-differ" and p["kind"] == "ident" and p["tag"] == "nonword" \
+                and [c.lower() for c in d["ref"][0]] == [c.lower() for c in (d["got"] or [[]])[0]]:
+            n_dev["other"] += 1
+            emit("C03/collect-uppercases-keyword-phrase-column-name",
+                 "collect() names a column `ORDER BY` that the engine (and the text of df.sql()) call `order by`: "
+                 "_BaseSession._collect re-parses the engine's column name as SQL and gets the keyword token's text", base)
+            continue
         if not o:
             n_dev["other"] += 1
-            sig = f"C03/unoptimized-text-{status}:{p['name'] or '>'.join(kinds(p['steps'])[-3:])}"
-            ctx.deviation(sig, "sql(optimize=False) does not reproduce collect()", base)
-            all_sigs[sig] = all_sigs.get(sig, 0) + 1
+            emit(f"C03/unoptimized-text-{status}:{p['name'] or '>'.join(kinds(p['steps'])[-3:])}",
+                 "sql(optimize=False) does not reproduce collect()", base)
             continue
         # optimize=True
         cur = None
         if p["kind"] == "chain":
             steps, cur = shrink(p, d["table"] if rows is None else None, rows)
-            shape = ">".join(kinds(steps))
+            shape = "shape:" + ">".join(kinds(steps))
             base["shrunk_program"] = [c01.step_str(s) for s in steps]
             base["shrunk_steps_json"] = steps
             if cur is not None:
                 base["shrunk_status"], base["shrunk_detail"], base["shrunk_sql_text"] = cur[0], cur[1], cur[2]
                 base["shrunk_collect"], base["shrunk_text_result"] = cur[3], cur[4]
                 status = cur[0]
+            try:
+                dfs = build(p, d["table"] if rows is None else None, session, F, steps=steps, rows_override=rows)
+                mech = mechanisms(dfs[-1]._get_expressions(optimize=False)[0], exp)
+                base["hazards_in_raw_tree"] = mech
+                for m_ in MECH_ORDER:
+                    if m_ in mech:
+                        shape = m_
+                        break
+            except Exception:   # noqa: BLE001
+                pass
         else:
-            shape = p["tag"]
+            shape = TAG_SIG.get(p["tag"], p["tag"])
         if status == "sql-raises":
             n_dev["raises"] += 1
             exc = (cur[1] if cur is not None else d["detail"]).split(":")[0]
-            sig = f"C03/optimize-sql-raises-{exc}:{shape}"
-            ctx.deviation(sig, "df.sql() (optimize=True, the default) raises for a DataFrame that collect() evaluates", base)
+            emit(f"C03/optimize-sql-raises-{exc}:{shape}",
+                 "df.sql() (optimize=True, the default) raises for a DataFrame that collect() evaluates", base)
         else:
             n_dev["optimize"] += 1
-            sig = f"C03/optimize-changes-result:{shape}"
-            ctx.deviation(sig, "the text of df.sql() (optimize=True, the default) does not return collect()'s rows/columns", base)
-        all_sigs[sig] = all_sigs.get(sig, 0) + 1
+            emit(f"C03/optimize-changes-result:{shape}",
+                 "the text of df.sql() (optimize=True, the default) does not return collect()'s rows/columns", base)
     ctx.log(f"classified {len(raw_devs)} raw deviations ({time.time() - t_cls:.1f}s): {n_dev}")
     with open(os.path.join(ctx.build, "deviation_signatures.json"), "w") as f:
         json.dump(all_sigs, f, indent=1, sort_keys=True)
